@@ -42,6 +42,11 @@ fn main() {
             props::run_one_path(&suite, &hist, args.get(4).map(|s| s == "thorough").unwrap_or(false))
         }
         Some("smoke") => props::smoke(),
+        Some("suite") => props::run_suite(
+            args.get(2).map(|s| s.as_str()).unwrap_or(""),
+            args.get(3).and_then(|s| s.parse().ok()).unwrap_or(3),
+            args.get(4).and_then(|s| s.parse().ok()).unwrap_or(60.0),
+        ),
         _ => {
             eprintln!("usage: fv check <Cxx> <quick|thorough> | replay <file> | path <suite> <hist> | smoke");
             2
